@@ -55,9 +55,13 @@ Definition validate_change_membership (applied removed : members) (cc_type : N) 
 (** Cluster.addMember(applied = true) / removeMember on the applied and removed sets *)
 Definition apply_add (applied : members) (m : member) : members :=
   if is_exist applied (m_id m) then applied else applied ++ [m].
+(** validateChangeMembership copies the applied member over the request's member ([*member = *m]:
+    a remove request carries the id only), so the removed set records the member's attributes *)
+Definition full_member (applied : members) (m : member) : member :=
+  match get_member applied (m_id m) with Some x => x | None => m end.
 Definition apply_remove (applied removed : members) (m : member) : members * members :=
   (filter (fun x => negb (m_id x =? m_id m)) applied,
-   if is_exist removed (m_id m) then removed else removed ++ [m]).
+   if is_exist removed (m_id m) then removed else removed ++ [full_member applied m]).
 
 (** ---- availability check ---- *)
 (** raft.Progress of one node as seen by the leader: State (0 probe, 1 replicate, 2 snapshot), Match *)
